@@ -93,26 +93,55 @@ func c13Trailing(c *Ctx) {
 			}
 			return false
 		}
-		// excused edge: false edge of len(diags) == 0
+		// excused edge: diagnostics are known to be present (len(diags) != 0, len(diags) > 0,
+		// the false edge of len(diags) == 0, diags.HasErrors(), through any negation)
 		excuse := func(from, to *ssa.BasicBlock) bool {
 			iff, ok := from.Instrs[len(from.Instrs)-1].(*ssa.If)
 			if !ok {
 				return false
 			}
-			bo, ok := iff.Cond.(*ssa.BinOp)
-			if !ok || bo.Op != token.EQL {
+			cond, neg := iff.Cond, false
+			for {
+				u, ok := cond.(*ssa.UnOp)
+				if !ok || u.Op != token.NOT {
+					break
+				}
+				cond, neg = u.X, !neg
+			}
+			present := false // cond true means diagnostics present
+			switch x := cond.(type) {
+			case *ssa.BinOp:
+				call, ok := x.X.(*ssa.Call)
+				if !ok {
+					return false
+				}
+				bi, ok := call.Call.Value.(*ssa.Builtin)
+				if !ok || bi.Name() != "len" || !isDiagnosticsType(call.Call.Args[0].Type()) {
+					return false
+				}
+				z, isZ := constInt(x.Y)
+				if !isZ || z != 0 {
+					return false
+				}
+				switch x.Op {
+				case token.EQL:
+					neg = !neg
+					present = true
+				case token.NEQ, token.GTR:
+					present = true
+				}
+			case *ssa.Call:
+				if cal := x.Call.StaticCallee(); cal != nil && cal.Name() == "HasErrors" && len(x.Call.Args) == 1 && isDiagnosticsType(x.Call.Args[0].Type()) {
+					present = true
+				}
+			}
+			if !present {
 				return false
 			}
-			call, ok := bo.X.(*ssa.Call)
-			if !ok {
-				return false
+			if neg {
+				return from.Succs[1] == to
 			}
-			bi, ok := call.Call.Value.(*ssa.Builtin)
-			if !ok || bi.Name() != "len" || !isDiagnosticsType(call.Call.Args[0].Type()) {
-				return false
-			}
-			z, isZ := constInt(bo.Y)
-			return isZ && z == 0 && from.Succs[1] == to
+			return from.Succs[0] == to
 		}
 		found := false
 		for _, b := range fn.Blocks {
